@@ -73,16 +73,26 @@ func c14Values(c *Ctx) {
 				"[].LocalTimeOffset.Items[].LocalTimeOffset": exempt,
 				"[].LocalTimeOffset.Items[].NextTimeOffset":  exempt,
 				"[].LocalTimeOffset.Items[].TimeOfChange":    exempt,
-				"[].MaximumBitrate.Bitrate":                  exempt,
-				"[].Teletext.Items[].Page":                   exempt,
-				"[].VBITeletext.Items[].Page":                exempt,
+				// maximum_bitrate is carried in units of 50 bytes/s: the parsed value must be 50 × the 22 bits emitted
+				"[].MaximumBitrate.Bitrate": func(src *layout.Source) *lin.Form {
+					for _, ch := range src.Chunks {
+						if ch.Kind == layout.CBits && ch.W == 22 && ch.Lin != nil {
+							f := ch.Lin.Scale(50)
+							return &f
+						}
+					}
+					f := lin.Const(0)
+					return &f
+				},
+				"[].Teletext.Items[].Page":    exempt,
+				"[].VBITeletext.Items[].Page": exempt,
 			},
 			Why: map[string]string{
 				"[].Length": "the emitted length is not a whole number of bytes",
 				"[].LocalTimeOffset.Items[].LocalTimeOffset": "BCD hours/minutes arithmetic (value-level, see C15: not decidable statically); only the 16 bits' position is covered by the consumption check",
 				"[].LocalTimeOffset.Items[].NextTimeOffset":  "BCD hours/minutes arithmetic (see C15)",
 				"[].LocalTimeOffset.Items[].TimeOfChange":    "MJD/BCD calendar arithmetic (see C15)",
-				"[].MaximumBitrate.Bitrate":                  "the stream carries Bitrate/50: only multiples of 50 round-trip (arithmetic, not a bit layout)",
+				"[].MaximumBitrate.Bitrate":                  "the 22-bit maximum_bitrate chunk could not be located",
 				"[].Teletext.Items[].Page":                   "the page number is split into a magazine number and two BCD digits (arithmetic)",
 				"[].VBITeletext.Items[].Page":                "the page number is split into a magazine number and two BCD digits (arithmetic)",
 			},
